@@ -123,6 +123,13 @@ def execute(case):
   # identity rebuild
   rebuilt = daglish.MemoizedTraversal.run(lambda v, s: s.map_children(v), root)
   obs['rebuild_equal'] = graphs.canon(rebuilt) == graphs.canon(root)
+  try:
+    from harness import codeparse
+    from harness.props import C07
+    rb_req, _rb_enc = graphs.encode(rebuilt)
+    obs['m_rebuild'] = codeparse.canon_heap([C07.project_obj(o) for o in rb_req['objs']], rb_req['root'])
+  except Exception as e:
+    obs['m_rebuild'] = f'encoding the rebuilt structure raised {type(e).__name__}'
   obs['rebuild_ddict_ok'] = all(
       type(a) is type(b) and (not isinstance(a, collections.defaultdict) or a.default_factory is b.default_factory)
       for (a, _), (b, _) in zip(daglish.iterate(root, memoized=False), daglish.iterate(rebuilt, memoized=False)))
@@ -184,7 +191,7 @@ def execute(case):
     obs['legacy_paths'] = sorted([enc.ids.get(i, -1), graphs.path_proto(p)] for i, ps in lp.items() for p in ps)
   except Exception as e:
     obs['legacy_paths'] = f'raised {type(e).__name__}'
-  req = {'p': 'graph', 'objs': heap['objs'], 'root': heap['root'], 'q': QUERIES}
+  req = {'p': 'graph', 'objs': heap['objs'], 'root': heap['root'], 'q': QUERIES + ['rebuild']}
   return obs, req
 
 
@@ -205,6 +212,14 @@ def compare(real, model):
       b = sorted(b)
     if a != b:
       diffs.append((q, 'stream', a if len(str(a)) < 2000 else '...', b if len(str(b)) < 2000 else '...'))
+  if 'm_rebuild' in real and isinstance(model.get('rebuild'), dict):
+    from harness import codeparse
+    rb = model['rebuild']
+    got = codeparse.canon_heap(rb['heap'], rb['root'])
+    if got != real['m_rebuild']:
+      diffs.append(('rebuild', 'identity traversal result vs Model/Rebuild', real['m_rebuild'], got))
+  elif 'm_rebuild' in real:
+    diffs.append(('rebuild', 'model', 'ok', model.get('rebuild')))
   return diffs
 
 
